@@ -26,8 +26,14 @@ def monitor_history(oc, hseed, tier):
     rng = random.Random(hseed)
     g = gen_hist.Gen(rng)
     ro_text = TJ.to_text(g.ro(rng.randrange(1, 5)))
-    ro = impl.load(ro_text)
-    other = impl.load(ro_text)                 # a second running order fed by the same message objects
+    try:
+        ro = impl.load(ro_text)
+        other = impl.load(ro_text)             # a second running order fed by the same message objects
+        assert type(ro).__name__ == 'RunningOrder'
+    except Exception as e:  # noqa: BLE001
+        oc.disagreements.append({'kind': 'load', 'what': 'the running-order document is not read as a RunningOrder (the model classifies it as one)',
+                                 'impl': impl.err_name(e), 'text': ro_text[:1500]})
+        return [ro_text]
     n = rng.randrange(2, (10 if tier == 'quick' else 25) + 1)
     merged = []                                # (text, object, str at merge time)
     docs = [ro_text]
@@ -71,12 +77,18 @@ def monitor_history(oc, hseed, tier):
         if merged and rng.random() < 0.7:
             t, m, s0, c = rng.choice(merged)
             snapshot = str(ro)
-            ra, rb = impl.load(snapshot), impl.load(snapshot)
-            oa = merge(ra, m)
-            ob = merge(rb, impl.load(t))
-            oc.count('reuse-checks')
-            if (oa['err'], oa['warns'], str(ra)) != (ob['err'], ob['warns'], str(rb)):
-                bad.append(f're-merging the same {c} message object differs from merging a fresh copy')
+            try:
+                ra, rb = impl.load(snapshot), impl.load(snapshot)
+            except Exception as e:  # noqa: BLE001
+                oc.disagreements.append({'kind': 'load', 'what': 'the serialised running order is not read back (the model reads it as a RunningOrder)',
+                                         'impl': impl.err_name(e), 'text': snapshot[:1500]})
+                ra = None
+            if ra is not None:
+                oa = merge(ra, m)
+                ob = merge(rb, impl.load(t))
+                oc.count('reuse-checks')
+                if (oa['err'], oa['warns'], str(ra)) != (ob['err'], ob['warns'], str(rb)):
+                    bad.append(f're-merging the same {c} message object differs from merging a fresh copy')
         if bad:
             oc.failing.append(dict(rec, spec='; '.join(bad)))
         if cls in CARRY:
